@@ -28,6 +28,7 @@ from hypothesis import strategies as st
 
 from pyairtouch.comms.crc16 import Crc16Modbus
 
+from pav import sockops
 from pav import gens, refproto
 from pav.harness import Stats, Violation, drive, given_test
 from pav.rig import SockRig, console_frames
@@ -103,7 +104,8 @@ def special_header_frames(gen: int, want: int = 6):
 def floors(tier: str):
     return {"crc:len1-2": 65792, "pattern:single": 1000, "pattern:double": 1000, "pattern:burst": 1000,
             "e2e:model-error": 100, "e2e:probe-delivered": 100, "e2e:special-check-value:0": 20, "e2e:special-check-value:3": 20,
-            "crc:check-value-0000": 100, "e2e:special-header:b0": 8, "e2e:special-header:bf": 8}
+            "crc:check-value-0000": 100, "e2e:special-header:b0": 8, "e2e:special-header:bf": 8,
+            "e2e:send-between-segments": 200}
 
 
 def gens_first_message(gen: int):
@@ -237,9 +239,9 @@ def check_patterns(gen: int, kind: str, frame: bytes, rnd_bits, stats: Stats, ex
 # ---------------------------------------------------------------- (c) end to end
 
 
-def check_e2e(gen: int, frames: list[bytes], victim: int, bits: list[int], probes: list[bytes], stats: Stats | None):
+def check_e2e(gen: int, frames: list[bytes], victim: int, bits: list[int], probes: list[bytes], stats: Stats | None, split=None):
     case = {"part": "e2e", "gen": gen, "frames": [f.hex() for f in frames], "victim": victim, "bits": bits,
-            "probes": [p.hex() for p in probes]}
+            "probes": [p.hex() for p in probes], "split": split}
 
     def bad(key, what):
         raise Violation(f"C06:{key}", what, case)
@@ -259,7 +261,17 @@ def check_e2e(gen: int, frames: list[bytes], victim: int, bits: list[int], probe
     try:
         rig.open()
         tr0 = rig.net.conns[0]
-        tr0.feed(stream)
+        if split is None:
+            tr0.feed(stream)
+        else:
+            # the stream arrives in two segments and the client transmits a message of its own in between (checking a
+            # received frame and producing the check value of a transmitted one must not interfere)
+            k = 1 + split % (len(stream) - 1)
+            tr0.feed(stream[:k])
+            rig.loop.settle()
+            rig.send(sockops.build(gen, "ac_req", []))
+            rig.loop.settle()
+            tr0.feed(stream[k:])
         rig.loop.settle()
         got = [(h.to_address, h.from_address, h.packet_id, h.message_id, h.message_length) for _, h, _ in rig.received]
         exp = [(fr.to, fr.frm, fr.pid, fr.mtype, len(fr.data)) for fr in model.frames]
@@ -343,7 +355,7 @@ def _bits_of(pattern, nbits: int) -> list[int]:
 def _e2e_strategy(gen: int):
     msgs = st.lists(gens.message(gen, direction="s2c"), min_size=2, max_size=5)
     probes = st.lists(gens.message(gen, direction="s2c"), min_size=1, max_size=2)
-    return st.tuples(msgs, st.integers(0, 4), _pattern, probes)
+    return st.tuples(msgs, st.integers(0, 4), _pattern, probes, st.one_of(st.none(), st.none(), st.integers(0, 4000)))
 
 
 def run_shard(spec, seed: int, tier: str):
@@ -433,7 +445,7 @@ def run_shard(spec, seed: int, tier: str):
         gen = spec["gen"]
 
         def body(case):
-            msgs, vi, pattern, probes = case
+            msgs, vi, pattern, probes, split = case
             frames = console_frames(gen, [m for _, m in msgs])
             pf = console_frames(gen, [m for _, m in probes], pid0=200)
             victim = vi % len(frames)
@@ -444,7 +456,9 @@ def run_shard(spec, seed: int, tier: str):
                     stats.classes[f"e2e:special-check-value:{pattern[1]}"] += 1
             else:
                 bits = _bits_of(pattern, (len(frames[victim]) - s) * 8)
-            check_e2e(gen, frames, victim, bits, pf, stats)
+            check_e2e(gen, frames, victim, bits, pf, stats, split=split)
+            if split is not None and stats is not None:
+                stats.classes["e2e:send-between-segments"] += 1
         drive(stats, lambda s: given_test(_e2e_strategy(gen), lambda c: stats.guard(body, c), s, spec["n"]), seed)
     return stats.result()
 
@@ -463,7 +477,7 @@ def replay(case):
                 raise Violation("C06:undetected-replay", "validate accepts the damaged frame", case)
         else:
             check_e2e(case["gen"], [bytes.fromhex(f) for f in case["frames"]], case["victim"], case["bits"],
-                      [bytes.fromhex(p) for p in case["probes"]], None)
+                      [bytes.fromhex(p) for p in case["probes"]], None, split=case.get("split"))
     except Violation as v:
         return v.as_dict()
     return None
